@@ -400,12 +400,16 @@ def gen_program(rng, case, focus=None, allow_infeasible=True):
     def nonempty(n):
         return any(a > 0 for a in cur[n].contents.values())
 
-    def sel_for(pname, partial=None):
+    def sel_for(pname, partial=None, sub_p=0.35):
         p = cur[pname]
         if partial is False or (partial is None and rng.random() < 0.3):
             return None, [(i, j) for i in range(p.wells.shape[0]) for j in range(p.wells.shape[1])]
         sel, idx, shape = rand_selector(rng, p)
-        if len(idx) > 1 and rng.random() < 0.35:
+        for _ in range(4):
+            if len(idx) > 1 or sub_p <= 0.35:
+                break
+            sel, idx, shape = rand_selector(rng, p)            # (a part with several wells, so that a part of it can be taken)
+        if len(idx) > 1 and rng.random() < sub_p:
             # a slice of a slice as the step's reference (the recipe must act on exactly the sub-selection)
             with M.oracle():
                 r = subslice(rng, p, sel, idx, shape)
@@ -475,12 +479,19 @@ def gen_program(rng, case, focus=None, allow_infeasible=True):
             st = gen_pp(rng, cur, P)
         elif kind == 'remove' and (C or P):
             t = rng.choice(C + P)
+            # half of the removals go to a plate that holds something, and most of those to a part of a part of it
+            loaded = [p_ for p_ in P if any(w_.contents for w_ in cur[p_].wells.flatten())]
+            on_loaded = bool(loaded) and rng.random() < 0.5
+            if on_loaded:
+                t = rng.choice(loaded)
             o = cur[t]
             present = list(o.get_substances()) if is_plate(o) else list(o.contents)
             what = rng.choice(present) if present and rng.random() < 0.6 else rng.choice([R.SOLID, R.LIQUID, R.ENZYME])
             sel = None
             if is_plate(o):
-                sel, idx = sel_for(t)
+                sel, idx = sel_for(t, partial=True, sub_p=0.7) if on_loaded else sel_for(t)
+                if on_loaded and isinstance(sel, SubSel):
+                    M.bucket('C17/recipe/remove_on_part_of_a_part_of_a_loaded_plate')
             st = {'op': 'remove', 'dst': [t, sel], 'what': what}
             if rng.random() < 0.5 and open_stage is None:
                 # its own stage, so that the discarded amounts can be queried (C17 trash link)
@@ -1653,7 +1664,10 @@ def check_c19_steps(prog, pdesc, rs, r, res, ledger, objects, case):
                 if want_ is not None:
                     got_ = named_region(text, t, rows_, cols_)
                     M.count('INSTR.recipe_step_region')
-                    if got_ is None:
+                    if got_ is None and (t + '[') in text:
+                        M.count('INSTR.recipe_step_region_unreadable')      # (a list of wells: not read back here)
+                        got_ = want_
+                    elif got_ is None:
                         got_ = everything            # the bare plate name: the whole plate
                     if sorted(set(got_)) != sorted(set(want_)):
                         bad = 'region'
